@@ -103,6 +103,8 @@ REVERT_PROPS = {
     'rate_limit keeps arrival order and spacing': ['C13', 'C02'],
     'slice stays within its end': ['C01'],
     "collect.flush hands its consumers' awaitables": ['C02'],
+    'map_async runs one worker at a time': ['C02'],
+    'map_async.stop() on a node that is not running': ['C02'],
 }
 
 
